@@ -224,6 +224,20 @@ static int r_tentative(const Witness &w) {
 #undef private
 typedef coarsening::ruge_stuben< backend::builtin<double> > RS;
 typedef backend::crs<char, ptrdiff_t, ptrdiff_t> CrsFlags;
+#include <sys/wait.h>
+#include <unistd.h>
+#include <omp.h>
+// run f in a child process: a crash of the real library (e.g. an uninitialised column index used by transpose) is a
+// reproduction, not a failure of the driver.  Callers switch OpenMP to one thread first (no thread pool to inherit).
+template <class F> static int run_in_child(F f, const char *what) {
+    std::cout.flush();
+    pid_t pid = fork();
+    if (pid == 0) { int rc = f(); std::cout.flush(); _exit(rc); }
+    int st = 0; waitpid(pid, &st, 0);
+    if (WIFEXITED(st)) return WEXITSTATUS(st);
+    std::cout << "REPRODUCED on the real code: " << what << " crashed (signal " << WTERMSIG(st) << "): memory corruption" << std::endl;
+    return 1;
+}
 
 static bool rs_close(double a, double b) { return std::fabs(a - b) <= 1e-9 * (1 + std::fabs(a) + std::fabs(b)); }
 
@@ -305,6 +319,7 @@ static std::shared_ptr<Crs> rs_tie_scenario(int nx, int ny) {
 }
 static int r_rs_interp(const Witness &w) {
     auto A = crs_checked(w, "A"); if (!A) return 3;
+    omp_set_num_threads(1);
     print_crs("A", *A);
     std::set<float> et, es;
     const float es0[] = {0.25f, 0.5f, 0.1f, 0.9f, 0.01f}; es.insert(es0, es0 + 5);
@@ -320,8 +335,10 @@ static int r_rs_interp(const Witness &w) {
         bool dt = pass == 0 ? wdt : !wdt;
         for (std::set<float>::iterator s = es.begin(); s != es.end(); ++s)
             for (std::set<float>::iterator t = et.begin(); t != et.end(); ++t) {
-                int rc = rs_check_once(*A, *s, dt, *t, false);
-                if (rc) { rs_check_once(*A, *s, dt, *t, true); return rc; }
+                const Crs &Ar = *A; const float sv = *s, tv = *t;
+                int rc = run_in_child([&]() { int r = rs_check_once(Ar, sv, dt, tv, false); if (r) rs_check_once(Ar, sv, dt, tv, true); return r; },
+                                      "ruge_stuben::transfer_operators on the witness matrix");
+                if (rc) { std::cout << "[eps_strong = " << sv << ", eps_trunc = " << tv << ", do_trunc = " << dt << "]" << std::endl; return rc; }
                 if (!dt) break;
             }
     }
@@ -331,7 +348,8 @@ static int r_rs_interp(const Witness &w) {
         auto T = rs_tie_scenario(shapes[k][0], shapes[k][1]);
         const float ets[] = {0.5f, 0.25f, 1.0f};
         for (int q = 0; q < 3; ++q) {
-            int rc = rs_check_once(*T, 0.25f, true, ets[q], false);
+            const Crs &Tr = *T; const float tv = ets[q];
+            int rc = run_in_child([&]() { return rs_check_once(Tr, 0.25f, true, tv, false); }, "ruge_stuben::transfer_operators on the canned scenario");
             if (rc) { std::cout << "scenario: anisotropic Neumann Laplacian " << shapes[k][0] << "x" << shapes[k][1] << " (x: -2, y: -1)" << std::endl; return rc; }
         }
     }
